@@ -58,6 +58,7 @@ type c05Writer struct {
 	seq         uint64
 	unused      []uint64
 	failAfterAt []bool // per attempt: did the injected body-persistence fault fire
+	tombAt      []bool // per attempt: was the stored document a tombstone when this attempt's callback ran
 	attempts    int
 	ran         bool
 	tracked     bool // ran as a main/sequential writer: fault flags were in force
@@ -116,9 +117,12 @@ func (e *c05Env) body(w *c05Writer) Body {
 }
 
 // the revision id Put would create for writer w on parent parentRev (same computation as db.Put)
-func (e *c05Env) revFor(w *c05Writer, parentRev string) string {
+func (e *c05Env) revFor(w *c05Writer, parentRev string, retry bool) string {
 	b := e.body(w)
 	delete(b, BodyRev)
+	if retry {
+		delete(b, BodyDeleted) // db.Put strips _deleted from the body during the first attempt
+	}
 	stripped, _ := StripInternalProperties(b)
 	canon, err := base.JSONMarshalCanonical(stripped)
 	if err != nil {
@@ -184,6 +188,8 @@ func (e *c05Env) runWriter(c *c05Case, docid string, wi int, isMain bool) {
 		}
 		anyAck := false
 		if isMain {
+			d0, derr := e.col.GetDocument(e.ctx, docid, DocUnmarshalSync)
+			w.tombAt = append(w.tombAt, derr == nil && d0 != nil && d0.IsDeleted())
 			saveFail := e.fs.failOp
 			e.fs.failOp = nil
 			for _, ci := range c.inject[n] {
@@ -329,6 +335,30 @@ func (e *c05Env) runCase(rec *vRecorder, stream string, c *c05Case, desc string)
 		}
 	}
 
+	// Known finding: a live revision written over a tombstone is an insert, not a compare-and-swap, so it can
+	// overwrite a concurrent acknowledged tombstone revision.  Recognise exactly that shape: the main writer
+	// committed a live revision at its FIRST attempt although a competitor committed a deleted revision between
+	// its callback and its write, and the document was a tombstone when the main writer read it.
+	resurrectionRace := false
+	if c.main >= 0 {
+		m := c.writers[c.main]
+		k := m.attempts
+		if m.outcome == "ack" && !m.deleted && k >= 1 && k <= len(m.tombAt) && m.tombAt[k-1] {
+			for _, ci := range c.inject[k] {
+				cw := c.writers[ci]
+				if cw.ran && cw.outcome == "ack" {
+					// a competitor committed between the callback and the write of the attempt that succeeded
+					resurrectionRace = true
+				}
+			}
+		}
+	}
+	sigOr := func(sig string) string {
+		if resurrectionRace {
+			return "lost-update-tombstone-resurrection-race"
+		}
+		return sig
+	}
 	// ---- monitors (reflections of the theorems, on the implementation's own results) ----
 	committed := map[uint64]int{}
 	kinds := ""
@@ -343,7 +373,7 @@ func (e *c05Env) runCase(rec *vRecorder, stream string, c *c05Case, desc string)
 				committed[u-base0]++
 			}
 			if doc == nil || doc.History[w.rev] == nil {
-				rec.Fail("acked_present", "acked-write-lost", map[string]any{"case": desc, "writer": wi, "rev": w.rev}, "acknowledged revision is not in the document history")
+				rec.Fail("acked_present", sigOr("acked-write-lost"), map[string]any{"case": desc, "writer": wi, "rev": w.rev}, "acknowledged revision is not in the document history")
 			}
 		}
 	}
@@ -352,7 +382,7 @@ func (e *c05Env) runCase(rec *vRecorder, stream string, c *c05Case, desc string)
 		for wi, w := range c.writers {
 			if w.ran && w.outcome == "ack" && doc.History[w.rev] != nil && !doc.History[w.rev].Deleted && doc.History.isLeaf(w.rev) {
 				if _, err := e.col.Get1xRevBody(e.ctx, docid, w.rev, false, nil); err != nil {
-					rec.Fail("reported_success_durable", "swallowed-storage-error", map[string]any{"case": desc, "writer": wi, "rev": w.rev, "error": err.Error()},
+					rec.Fail("reported_success_durable", sigOr("swallowed-storage-error"), map[string]any{"case": desc, "writer": wi, "rev": w.rev, "error": err.Error()},
 						"write was acknowledged but its revision body cannot be read back")
 				}
 			}
@@ -365,7 +395,7 @@ func (e *c05Env) runCase(rec *vRecorder, stream string, c *c05Case, desc string)
 	for s := uint64(1); s <= last1-base0; s++ {
 		n := committed[s] + relCount[s]
 		if n == 0 {
-			sig := "sequence-leak"
+			sig := sigOr("sequence-leak")
 			rec.Fail("write_path_accounted", sig, map[string]any{"case": desc, "sequence": s, "committed": fmt.Sprint(committed), "released": released, "outcomes": kinds},
 				fmt.Sprintf("sequence %d was reserved but is neither on a stored revision nor published as unused", s))
 		} else if n > 1 {
@@ -377,7 +407,7 @@ func (e *c05Env) runCase(rec *vRecorder, stream string, c *c05Case, desc string)
 	for _, wi := range commitOrder {
 		w := c.writers[wi]
 		if w.seq-base0 <= prev {
-			rec.Fail("acked_seq_increasing", "sequence-not-increasing", map[string]any{"case": desc, "writer": wi, "seq": w.seq - base0, "previous": prev}, "acknowledged write did not get a sequence above the one it superseded")
+			rec.Fail("acked_seq_increasing", sigOr("sequence-not-increasing"), map[string]any{"case": desc, "writer": wi, "seq": w.seq - base0, "previous": prev}, "acknowledged write did not get a sequence above the one it superseded")
 		}
 		prev = w.seq - base0
 		if p, ok := treeDesc[w.rev]; ok && p != "" && w.push == 0 {
@@ -398,7 +428,10 @@ func (e *c05Env) runCase(rec *vRecorder, stream string, c *c05Case, desc string)
 		key := fmt.Sprintf("%d|%s", w.tag, parent)
 		if !seenTab[key] {
 			seenTab[key] = true
-			tab = append(tab, "(("+cqI(w.tag)+", "+c05OptRev(parent)+"), "+c05ParseRev(e.revFor(w, parent)).dig.String()+")")
+			tab = append(tab, "(("+cqI(w.tag)+", "+c05OptRev(parent)+"), "+c05ParseRev(e.revFor(w, parent, false)).dig.String()+")")
+			if w.deleted {
+				tab = append(tab, "(("+cqI(w.tag+1000000)+", "+c05OptRev(parent)+"), "+c05ParseRev(e.revFor(w, parent, true)).dig.String()+")")
+			}
 		}
 	}
 	for _, w := range c.writers {
@@ -431,7 +464,8 @@ func (e *c05Env) runCase(rec *vRecorder, stream string, c *c05Case, desc string)
 			outs = append(outs, "None")
 		case w.outcome == "ack":
 			outs = append(outs, "(Some (OAck "+c05ParseRev(w.rev).coq()+" "+cqN(w.seq-base0)+"))")
-			if want := e.revFor(w, treeDesc[w.rev]); w.push == 0 && want != w.rev {
+			if _, inTree := treeDesc[w.rev]; inTree && w.push == 0 && e.revFor(w, treeDesc[w.rev], false) != w.rev && e.revFor(w, treeDesc[w.rev], true) != w.rev {
+				want := e.revFor(w, treeDesc[w.rev], false)
 				e.t.Errorf("harness self-check: computed rev %s, implementation created %s", want, w.rev)
 			}
 		case w.outcome == "conflict":
@@ -504,6 +538,21 @@ func TestVerifC05(t *testing.T) {
 			setup:   []int{0, 1, 2, 3, 4, 5}}, "push-variants")
 	}
 
+	// the same revision pushed by two writers at once (two replicators): the loser reserved a sequence, lost the
+	// CAS race, and finds on retry that the revision is already there (cancelled no-op) -- it must still give
+	// the sequence back
+	for _, ac := range []bool{true, false} {
+		envs[ac].runCase(rec, "corpus", &c05Case{allowConflicts: ac,
+			writers: []*c05Writer{mk(1, -1, ""), mkPush(2, 0, 1, ""), mkPush(2, 0, 1, "")},
+			setup:   []int{0}, main: 1, inject: map[int][]int{1: {2}}}, "same-push-race")
+		envs[ac].runCase(rec, "corpus", &c05Case{allowConflicts: ac,
+			writers: []*c05Writer{mk(1, -1, ""), mkPush(2, 0, 2, ""), mkPush(3, 0, 1, ""), mkPush(2, 0, 2, "")},
+			setup:   []int{0}, main: 1, inject: map[int][]int{1: {2}, 2: {3}}}, "same-push-race-after-retry")
+		envs[ac].runCase(rec, "corpus", &c05Case{allowConflicts: ac,
+			writers: []*c05Writer{mkPush(7, -1, 2, ""), mkPush(7, -1, 2, "")},
+			main:    0, inject: map[int][]int{1: {1}}}, "same-root-push-race")
+	}
+
 	// ---- random schedules ----
 	n := vBudget(220, 1500)
 	for i := 0; i < n; i++ {
@@ -531,6 +580,19 @@ func TestVerifC05(t *testing.T) {
 					par = rnd.Intn(j)
 				case rnd.Chance(30):
 					par = -2
+				}
+			}
+			if j > 0 && rnd.Chance(12) {
+				// a second writer pushing exactly the revision an earlier push writer pushes
+				var prev *c05Writer
+				for _, pw := range c.writers {
+					if pw.push > 0 {
+						prev = pw
+					}
+				}
+				if prev != nil {
+					c.writers = append(c.writers, mkPush(prev.tag, prev.parentOf, prev.push, flags))
+					continue
 				}
 			}
 			if rnd.Chance(30) {
